@@ -1,7 +1,710 @@
-/- C04: model not built yet (stub so that the per-property driver links). -/
+/-
+C04 — Lancero ingest.  Transcription of
+
+* `lancero.FindFrameBits`            (lancero/lancero.go)            → `findFrameBits`
+* the ticker branch of `launchLanceroReader` (lancero_source.go)     → `readerTick`, `runReader`
+* `updateChanOrderMap`                                               → `c2rTable`
+* `Mix.MixRetardFb`                  (mix.go)                        → `mixRetard`
+* `distributeData` (ext-trigger scan, mix, segment stamping)         → `distribute`
+* the mix-request branch of `getNextBlock` / `ConfigureMixFraction`  → `configureMix`
+
+Bytes, 16-bit samples and counts are `Nat`; frame numbers and times are `Int`.  Go panics are
+values (`Panic`).  Float arithmetic of the mixer is abstracted by `FloatOps` (theorems hold for
+every instance); the driver instantiates it with IEEE doubles (`floatOps`).
+Single card only (the code panics "not yet implemented" for more).
+-/
 import DastardV.Proto
 namespace DastardV.C04
 
-def runLine (_ts : List String) : Verdict := .bad "C04: model not built yet"
+/-! ### Geometry and byte layout -/
+
+structure Geom where
+  nc : Nat      -- columns
+  nr : Nat      -- rows
+deriving Repr, DecidableEq
+
+/-- words per frame -/
+def Geom.F (g : Geom) : Nat := g.nc * g.nr
+/-- `dev.frameSize` (bytes) -/
+def Geom.fs (g : Geom) : Nat := g.nc * g.nr * 4
+/-- number of channels (err, fb per word) -/
+def Geom.nchan (g : Geom) : Nat := g.nc * g.nr * 2
+
+def lsb (x : Nat) : Bool := x % 2 == 1
+
+/-- `b[0]&1, b[4]&1, b[8]&1, …` for every index `< len b` -/
+def every4 : List Nat → List Bool
+  | [] => []
+  | a :: _ :: _ :: _ :: rest => lsb a :: every4 rest
+  | a :: _ => [lsb a]
+
+/-- the bits `b[off]&1, b[off+4]&1, …` that `for i := off; i < len(b); i += 4` visits -/
+def bitsAt (off : Nat) (b : List Nat) : List Bool := every4 (b.drop off)
+
+/-- `bytesToRawType`: little-endian 16-bit view (a trailing odd byte is not visible) -/
+def u16s : List Nat → List Nat
+  | lo :: hi :: rest => (lo + 256 * hi) :: u16s rest
+  | _ => []
+
+/-! ### FindFrameBits -/
+
+/-- first loop: skip until a word without frame bit was seen, then the index of the next word
+with frame bit (`frameBitInPreviousWord` is never set in this loop, its branch is dead). -/
+def findQ : List Bool → Nat → Bool → Option Nat
+  | [], _, _ => none
+  | x :: xs, i, seen =>
+    if seen then (if x then some i else findQ xs (i + 1) true)
+    else findQ xs (i + 1) (!x)
+
+/-- second loop: number of consecutive set bits -/
+def countTrue : List Bool → Nat
+  | true :: xs => countTrue xs + 1
+  | _ => 0
+
+/-- third loop: first a word without frame bit, then the index of the next one with it -/
+def findP : List Bool → Nat → Bool → Option Nat
+  | [], _, _ => none
+  | x :: xs, i, prev =>
+    if prev && !x then findP xs (i + 1) false
+    else if !prev && x then some i
+    else findP xs (i + 1) prev
+
+structure FFB where
+  q : Nat
+  p : Nat
+  n : Nat
+  ok : Bool      -- err == nil
+deriving Repr, DecidableEq
+
+/-- `FindFrameBits(b, 2)` with the results in words (`q/4`, `p/4`).  When no `q` is found the Go
+variable stays 0 and the later loops run over byte offset 0 (the error low bytes). -/
+def findFrameBits (b : List Nat) : FFB :=
+  let B2 := bitsAt 2 b
+  match findQ B2 0 false with
+  | some w =>
+    let tail := B2.drop w
+    let n := countTrue tail
+    if n < 1 then { q := w, p := 0, n := 0, ok := false } else
+    match findP (tail.drop n) (w + n) true with
+    | some p => { q := w, p := p, n := n, ok := true }
+    | none => { q := w, p := 0, n := n, ok := false }
+  | none =>
+    let B0 := bitsAt 0 b
+    let n := countTrue B0
+    if n < 1 then { q := 0, p := 0, n := 0, ok := false } else
+    match findP (B0.drop n) n true with
+    | some p => { q := 0, p := p, n := n, ok := true }
+    | none => { q := 0, p := 0, n := n, ok := false }
+
+/-! ### The reader tick -/
+
+inductive Panic where
+  | divZero          -- `nrows := (p - q) / ncols` with ncols = 0
+  | firstWordZero    -- "not sure what to do here, but it wont self fix"
+  | dropFromEnd      -- "expect dropFromEnd>0"
+  | noFrames         -- "should not get here"
+deriving Repr, DecidableEq
+
+inductive Tick where
+  | small                                   -- fewer than 3 frames available: nothing released
+  | discard (rel : Nat)                     -- buffer not understood: all of it released
+  | deliver (drop : Bool) (rel : Nat) (raw : List Nat) (nframes : Nat)
+  | panic (p : Panic)
+deriving Repr, DecidableEq
+
+/-- One pass of the `case <-ticker.C` branch on the available bytes `b`.
+`raw` is the 16-bit view of the (re-aligned) buffer, `nframes = framesUsed`,
+`rel` the total number of bytes handed back to the driver. -/
+def readerTick (g : Geom) (b : List Nat) : Tick :=
+  if b.length < 3 * g.fs then .small else
+  let f := findFrameBits b
+  if f.n = 0 then .panic .divZero else
+  let nrows : Int := Int.tdiv ((f.p : Int) - f.q) f.n
+  if f.n ≠ g.nc ∨ nrows ≠ g.nr ∨ !f.ok ∨ f.q > g.nc * g.nr then .discard b.length else
+  if f.q ≠ g.nc * g.nr then
+    if f.q = 0 then .panic .firstWordZero else
+    let dropFromStart := f.q * 4
+    if g.fs ≤ dropFromStart then .panic .dropFromEnd else
+    let dropFromEnd := g.fs - dropFromStart
+    let b' := (b.drop dropFromStart).take (b.length - dropFromEnd - dropFromStart)
+    let nframes := b'.length / g.fs
+    if nframes = 0 then .panic .noFrames else
+    .deliver true (dropFromStart + nframes * g.fs) (u16s b') nframes
+  else
+    let nframes := b.length / g.fs
+    if nframes = 0 then .panic .noFrames else
+    .deliver false (nframes * g.fs) (u16s b) nframes
+
+/-- the demultiplexing loop: `datacopies[i][j] = buffer[i + j*nchan]` (readout order) -/
+def demux (nchan nframes : Nat) (raw : List Nat) : List (List Nat) :=
+  let buffer := raw.toArray      -- (an array only so that the driver indexes in constant time)
+  (List.range nchan).map fun i => (List.range nframes).map fun j => buffer.getD (i + j * nchan) 0
+
+/-- what the reader puts on `buffersChan` -/
+structure Buf where
+  dc : List (List Nat)     -- datacopies (readout order), each `framesUsed` long
+  t : Int                  -- lastSampleTime, in frame periods
+  drop : Bool
+deriving Repr, DecidableEq
+
+/-- the scripted card: bytes already visible and not released, bytes not yet visible -/
+structure Card where
+  pending : List Nat
+  future : List Nat
+deriving Repr, DecidableEq
+
+/-- Ticks of the reader loop.  Tick `k` first makes `chunk` more bytes visible (the card's DMA),
+the card's time stamp is `t`.  `disc` = `discardedBuffer`: an earlier buffer was released unread,
+the next block reports a data drop.  A panic ends the process. -/
+def runReader (g : Geom) : Card → Bool → List (Nat × Int) → Except Panic (List Buf)
+  | _, _, [] => .ok []
+  | c, disc, (chunk, t) :: rest =>
+    let b := c.pending ++ c.future.take chunk
+    let fut := c.future.drop chunk
+    match readerTick g b with
+    | .small => runReader g { pending := b, future := fut } disc rest
+    | .discard rel => runReader g { pending := b.drop rel, future := fut } true rest
+    | .panic p => .error p
+    | .deliver drop rel raw nframes =>
+      match runReader g { pending := b.drop rel, future := fut } false rest with
+      | .error p => .error p
+      | .ok bufs => .ok ({ dc := demux g.nchan nframes raw, t := t, drop := drop || disc } :: bufs)
+
+/-! ### Channel order -/
+
+/-- channel number of a readout index (body of the loop in `updateChanOrderMap`) -/
+def channum (g : Geom) (readIdx : Nat) : Nat :=
+  let rownum := (readIdx / 2) / g.nc
+  let colnum := (readIdx / 2) % g.nc
+  (readIdx % 2) + rownum * 2 + (colnum * g.nr) * 2
+
+/-- `ls.chan2readoutOrder` as built by `updateChanOrderMap` (one device) -/
+def c2rTable (g : Geom) : List Nat :=
+  (List.range g.nchan).foldl (fun t readIdx => t.set (channum g readIdx) readIdx)
+    (List.replicate g.nchan 0)
+
+/-! ### Mix -/
+
+/-- the float operations `MixRetardFb` uses, abstracted -/
+structure FloatOps (σ ρ : Type) where
+  isZero : σ → Bool                -- `m.errorScale == 0.0`
+  mulAdd : σ → Int → Nat → ρ       -- `float64(int16(err))*m.errorScale + float64(fb)`
+  geMax : ρ → Bool                 -- `>= math.MaxUint16`
+  ltZero : ρ → Bool                -- `< 0`
+  round : ρ → Nat                  -- `RawType(roundint(x))`
+
+/-- `x & ^0x03` on a 16-bit value -/
+def mask (x : Nat) : Nat := x - x % 4
+
+/-- one sample of the non-zero branch -/
+def mixOne {σ ρ} (ops : FloatOps σ ρ) (s : σ) (err : Nat) (fb : Nat) : Nat :=
+  let x := ops.mulAdd s (toInt16 err) fb
+  if ops.geMax x then 65535 else if ops.ltZero x then 0 else ops.round x
+
+/-- `MixRetardFb`: `xs` = the (fb, err) samples of one block, `last` = `m.lastFb`.
+Returns the new fb data and the new `lastFb`. -/
+def mixRetard {σ ρ} (ops : FloatOps σ ρ) (s : σ) : Nat → List (Nat × Nat) → List Nat × Nat
+  | last, [] => ([], last)
+  | last, (fb, err) :: rest =>
+    let out := if ops.isZero s then last else mixOne ops s err last
+    let (outs, l') := mixRetard ops s (mask fb) rest
+    (out :: outs, l')
+
+/-! ### distributeData -/
+
+/-- rising-edge scan over (count, flag) items, carrying `externalTriggerLastState` -/
+def edgeScan : Bool → List (Int × Bool) → List Int × Bool
+  | last, [] => ([], last)
+  | last, (cnt, s) :: rest =>
+    let (out, l') := edgeScan s rest
+    (if s && !last then cnt :: out else out, l')
+
+/-- external trigger bit = second least significant bit of a feedback sample -/
+def extBit (v : Nat) : Bool := v / 2 % 2 == 1
+
+/-- index into `datacopies` that the external-trigger scan reads for `row`:
+`ls.chan2readoutOrder[row*2+1]` (feedback of column 0 of that row); `tbl` = the table. -/
+def extIdx (tbl : List Nat) (row : Nat) : Nat := tbl.getD (row * 2 + 1) 0
+
+/-- the (rowcount, flag) items of one block in scan order (frame-major, then row) -/
+def extItems (g : Geom) (tbl : List Nat) (dc : List (List Nat)) (nframes : Nat) (frame0 : Int) : List (Int × Bool) :=
+  let rows := (List.range g.nr).map fun (r : Nat) => (r, dc.getD (extIdx tbl r) [])
+  (List.range nframes).flatMap fun (f : Nat) => rows.map fun (rd : Nat × List Nat) =>
+    (((f : Int) + frame0) * (g.nr : Int) + (rd.1 : Int), extBit (rd.2.getD f 0))
+
+structure DState (σ : Type) where
+  next : Int               -- ls.nextFrameNum
+  extLast : Bool           -- ls.externalTriggerLastState
+  prevT : Int              -- ls.previousLastSampleTime
+  lastFb : List Nat        -- Mix[ch].lastFb per channel index
+  scale : List σ           -- Mix[ch].errorScale per channel index
+
+structure Block where
+  first : Int              -- firstFrameIndex (all segments)
+  dropped : Int            -- droppedFrames (all segments)
+  nframes : Nat            -- block.nSamp
+  ext : List Int           -- externalTriggerRowcounts
+  data : List (List Nat)   -- per channel index
+deriving Repr, DecidableEq
+
+instance : Inhabited Block := ⟨{ first := 0, dropped := 0, nframes := 0, ext := [], data := [] }⟩
+
+/-- per-channel output of the segment loop, threading the `lastFb` table; `tbl` = `chan2readoutOrder`,
+`ros` = its not yet visited part, `ch` = the channel index of the head of `ros` -/
+def mixChannels {σ ρ} (ops : FloatOps σ ρ) (tbl : List Nat) (dc : List (List Nat)) (scale : List σ) (zero : σ) :
+    Nat → List Nat → List Nat → List (List Nat) × List Nat
+  | _, [], lastFb => ([], lastFb)
+  | ch, ro :: ros, lastFb =>
+    let data := dc.getD ro []
+    if ch % 2 = 1 then
+      let errData := dc.getD (tbl.getD (ch - 1) 0) []
+      let (out, l') := mixRetard ops (scale.getD ch zero) (lastFb.getD ch 0) (data.zip errData)
+      let (outs, lf) := mixChannels ops tbl dc scale zero (ch + 1) ros (lastFb.set ch l')
+      (out :: outs, lf)
+    else
+      let (outs, lf) := mixChannels ops tbl dc scale zero (ch + 1) ros lastFb
+      (data :: outs, lf)
+
+/-- `dc` is what the code may assume: one slice per channel, all `framesUsed` long -/
+def rect (g : Geom) (dc : List (List Nat)) : Bool :=
+  dc.length == g.nchan && dc.all (fun d => d.length == (dc.headD []).length)
+
+/-- `distributeData`.  `none`: the buffers are not rectangular (never produced by the reader). -/
+def distribute {σ ρ} (ops : FloatOps σ ρ) (zero : σ) (g : Geom) (st : DState σ) (b : Buf) :
+    Option (DState σ × Block) :=
+  if !rect g b.dc then none else
+  let nframes := (b.dc.headD []).length
+  -- dropped-frame estimate (wall clock in the code; here the difference of the scripted times)
+  let dropped : Int := if b.drop then b.t - st.prevT else 0
+  let next := st.next + dropped          -- `ls.nextFrameNum += FrameIndex(droppedFrames)`
+  let tbl := c2rTable g
+  let (ext, extLast) := edgeScan st.extLast (extItems g tbl b.dc nframes next)
+  let (data, lastFb) := mixChannels ops tbl b.dc st.scale zero 0 tbl st.lastFb
+  some ({ st with next := next + nframes, extLast := extLast, prevT := b.t, lastFb := lastFb },
+        { first := next, dropped := dropped, nframes := nframes, ext := ext, data := data })
+
+def distributeAll {σ ρ} (ops : FloatOps σ ρ) (zero : σ) (g : Geom) :
+    DState σ → List Buf → Option (DState σ × List Block)
+  | st, [] => some (st, [])
+  | st, b :: bs =>
+    match distribute ops zero g st b with
+    | none => none
+    | some (st1, blk) =>
+      match distributeAll ops zero g st1 bs with
+      | none => none
+      | some (st2, blks) => some (st2, blk :: blks)
+
+/-- `ConfigureMixFraction` + the mix-request branch of `getNextBlock`: all indices are validated
+first (odd, in range); `none` = the request is rejected and nothing changes. -/
+def configureMix {σ} (g : Geom) (scaleOf : Nat → σ) (st : DState σ) (req : List (Int × Nat)) : Option (DState σ) :=
+  if req.all (fun (i, _) => 0 ≤ i ∧ i < g.nchan ∧ i % 2 = 1) then
+    some { st with scale := req.foldl (fun sc (i, fr) => sc.set i.toNat (scaleOf fr)) st.scale }
+  else none
+
+def DState.init {σ} (g : Geom) (zero : σ) (first t0 : Int) : DState σ :=
+  { next := first, extLast := false, prevT := t0,
+    lastFb := List.replicate g.nchan 0, scale := List.replicate g.nchan zero }
+
+/-! ### IEEE instance used by the driver (amd64 Go: no fused multiply-add) -/
+
+def floatOps : FloatOps Float Float where
+  isZero s := s == 0.0
+  mulAdd s e fb := Float.ofInt e * s + Float.ofNat fb
+  geMax x := x >= 65535.0
+  ltZero x := x < 0.0
+  round x := (Float.floor (x + 0.5)).toUInt64.toNat % 65536
+
+/-- `errorScale = fraction / float64(nsamp)`, fraction given by its IEEE bits -/
+def scaleOfBits (nsamp : Nat) (bits : Nat) : Float := Float.ofBits (UInt64.ofNat bits) / Float.ofNat nsamp
+
+/-! ### The property, as a decidable oracle on observed blocks
+
+Everything below the model is written in "closed form" (no state machine): the expected content of
+a channel is a `map` over the frames, the expected feedback stream a `zipWith` against the stream
+shifted by one sample, the expected trigger counts a filter over adjacent flag pairs. -/
+
+abbrev Word := Nat × Nat          -- (err, fb)
+abbrev Frame := List Word         -- `nc*nr` words in readout order r0c0, r0c1, …, r1c0, …
+
+def wordsOf (b : List Nat) : List Word :=
+  let rec go : List Nat → List Word
+    | e :: f :: rest => (e, f) :: go rest
+    | _ => []
+  go (u16s b)
+
+def chunks {α} (n : Nat) : Nat → List α → List (List α)
+  | 0, _ => []
+  | k + 1, xs => xs.take n :: chunks n k (xs.drop n)
+
+/-- the whole frames contained in a byte string -/
+def framesOf (g : Geom) (b : List Nat) : List Frame :=
+  chunks g.F (b.length / g.fs) (wordsOf b)
+
+/-- frame bit (lsb of fb) exactly on the words of row 0 -/
+def frameWF (g : Geom) (fr : Frame) : Bool :=
+  fr.length == g.F &&
+  (List.range g.F).all fun i => lsb ((fr.getD i (0, 0)).2) == decide (i < g.nc)
+
+def geomOK (g : Geom) : Bool := decide (1 ≤ g.nc) && decide (2 ≤ g.nr)
+
+/-- component `e` (0 = err, 1 = fb) of the word at (row r, column c) -/
+def wordAt (g : Geom) (fr : Frame) (r c e : Nat) : Nat :=
+  let w := fr.getD (r * g.nc + c) (0, 0)
+  if e = 0 then w.1 else w.2
+
+/-- THE CHANNEL NUMBERING OF THE STATEMENT: channel `2(c·nrows+r)+e` carries component `e` of (r, c). -/
+def chanTrue (g : Geom) (frs : List Frame) (ch : Nat) : List Nat :=
+  let k := ch / 2
+  frs.map fun fr => wordAt g fr (k % g.nr) (k / g.nr) (ch % 2)
+
+/-- expected feedback stream: delayed by one sample, flag bits cleared, scaled error of the SAME
+sample added with saturation.  `ss` = the scale in force for each sample. -/
+def mixSpec {σ ρ} (ops : FloatOps σ ρ) (ss : List σ) (errs fbs : List Nat) (last0 : Nat) : List Nat :=
+  List.zipWith (fun (se : σ × Nat) prev => if ops.isZero se.1 then prev else mixOne ops se.1 se.2 prev)
+    (ss.zip errs) (last0 :: fbs.map mask)
+
+/-- the flag the card reports for (frame, row): feedback bit 1 of column 0 -/
+def rowFlag (g : Geom) (fr : Frame) (r : Nat) : Bool := extBit (wordAt g fr r 0 1)
+
+def flagsUniform (g : Geom) (fr : Frame) : Bool :=
+  (List.range g.nr).all fun r => (List.range g.nc).all fun c => extBit (wordAt g fr r c 1) == rowFlag g fr r
+
+/-- (rowcount, flag) for every (frame, row) of `frs`, frames numbered from `frame0` -/
+def flagItems (g : Geom) (frs : List Frame) (frame0 : Int) : List (Int × Bool) :=
+  (List.zip (List.range frs.length) frs).flatMap fun (f, fr) =>
+    (List.range g.nr).map fun (r : Nat) => (((f : Int) + frame0) * (g.nr : Int) + (r : Int), rowFlag g fr r)
+
+/-- expected counts: item `i` is reported iff its flag is set and item `i-1`'s is not -/
+def edgeSpec (init : Bool) (items : List (Int × Bool)) : List Int :=
+  (List.zipWith (fun (it : Int × Bool) prev => if it.2 && !prev then some it.1 else none)
+    items (init :: items.map (·.2))).filterMap id
+
+def concatChan (blocks : List Block) (ch : Nat) : List Nat := blocks.flatMap fun b => b.data.getD ch []
+
+def totalFrames (blocks : List Block) : Nat := (blocks.map (·.nframes)).sum
+
+/-- later blocks never start before the end of an earlier one -/
+def monotone : List Block → Bool
+  | a :: b :: rest => decide (a.first + a.nframes ≤ b.first) && monotone (b :: rest)
+  | _ => true
+
+/-- blocks numbered contiguously from `first`, no loss reported -/
+def contiguous : Int → List Block → Bool
+  | _, [] => true
+  | first, b :: rest => decide (b.first = first) && decide (b.dropped = 0) && contiguous (first + b.nframes) rest
+
+def evenChans (g : Geom) : List Nat := (List.range g.nchan).filter (· % 2 == 0)
+def oddChans (g : Geom) : List Nat := (List.range g.nchan).filter (· % 2 == 1)
+
+/-- every block has one slice per channel and all of the announced length -/
+def shapeOK (g : Geom) (blocks : List Block) : Bool :=
+  blocks.all fun b => b.data.length == g.nchan && b.data.all (·.length == b.nframes)
+
+/-- the error channels of `blocks` are exactly frames `start, start+1, …` of `frs` -/
+def cleanRun (g : Geom) (frs : List Frame) (blocks : List Block) (start : Nat) : Bool :=
+  let m := totalFrames blocks
+  decide (start + m ≤ frs.length) &&
+  (evenChans g).all fun ch => concatChan blocks ch == chanTrue g ((frs.drop start).take m) ch
+
+/-- remove the byte ranges `(pos, len)` (ascending, in coordinates of the original) -/
+def cut (orig : List Nat) (gaps : List (Nat × Nat)) : List Nat :=
+  gaps.foldr (fun (pl : Nat × Nat) s => s.take pl.1 ++ s.drop (pl.1 + pl.2)) orig
+
+/-! #### Reader cases -/
+
+structure RIn where
+  g : Geom
+  nsamp : Nat
+  first : Int
+  t0 : Int
+  mix : List (Int × Nat)          -- (channel index, IEEE bits of the fraction), set before the reader starts
+  orig : List Nat                 -- the card's byte stream before any loss
+  gaps : List (Nat × Nat)
+  ticks : List (Nat × Int)        -- bytes becoming visible at each reader tick, card time stamp
+
+inductive ROut where
+  | panic (cls : String)
+  | hang
+  | blocks (mixOK : Bool) (bs : List Block)
+
+def RIn.stream (i : RIn) : List Nat := cut i.orig i.gaps
+def RIn.avail (i : RIn) : Nat := min ((i.ticks.map (·.1)).sum) i.stream.length
+
+/-- model of a reader case -/
+def runR (i : RIn) : Except Panic (Bool × List Block) :=
+  let st0 : DState Float := DState.init i.g 0.0 i.first i.t0
+  let (mixOK, st1) := match configureMix i.g (scaleOfBits i.nsamp) st0 i.mix with
+    | some s => (true, s)
+    | none => (false, st0)
+  match runReader i.g { pending := [], future := i.stream } false i.ticks with
+  | .error p => .error p
+  | .ok bufs =>
+    match distributeAll floatOps 0.0 i.g st1 bufs with
+    | some (_, blks) => .ok (mixOK, blks)
+    | none => .ok (mixOK, [])      -- unreachable: the reader's buffers are rectangular
+
+/-- The statement on a reader run.  `none` = satisfied; `some sig` = violated. -/
+def chkR (i : RIn) (out : ROut) : Option String :=
+  let g := i.g
+  let frs := framesOf g i.orig
+  let wf := geomOK g && i.orig.length % g.fs == 0 && frs.all (frameWF g)
+  if !wf then none else
+  match out with
+  | .panic cls => some s!"C04:reader-panic the reader crashed ({cls}) on a stream of well-formed frames{if i.gaps.isEmpty then "" else " with lost bytes"}"
+  | .hang => some "C04:reader-hang no answer"
+  | .blocks _ bs =>
+    if !shapeOK g bs then some "C04:block-shape a block's slices do not have the announced length" else
+    let n := totalFrames bs
+    if i.gaps.isEmpty then
+      -- well-formed stream, arbitrary chunking
+      if !(cleanRun g frs bs 0) then some "C04:word-placement an error channel is not the (row,column) word sequence of its channel number" else
+      if !(decide (i.avail < (n + 3) * g.fs)) then some "C04:frames-withheld three or more whole frames are visible but were not delivered" else
+      if !(contiguous i.first bs) then some "C04:frame-numbering loss reported or frame numbers not contiguous on a loss-free stream" else
+      let st0 : DState Float := DState.init g 0.0 i.first i.t0
+      let sc := match configureMix g (scaleOfBits i.nsamp) st0 i.mix with
+        | some s => s.scale
+        | none => st0.scale
+      let used := frs.take n
+      if !((oddChans g).all fun ch =>
+            concatChan bs ch == mixSpec floatOps (List.replicate n (sc.getD ch 0.0))
+              (chanTrue g used (ch - 1)) (chanTrue g used ch) 0)
+      then some "C04:fb-retard-mix a feedback channel is not the delayed, flag-cleared feedback plus the scaled error of the same sample" else
+      if used.all (flagsUniform g) && (bs.flatMap (·.ext)) != edgeSpec false (flagItems g used i.first)
+      then some "C04:ext-trigger-row external trigger counts are not frame*rows+row of the rising edges" else
+      none
+    else
+      if !(monotone bs) then some "C04:frames-backwards a later block starts before the end of an earlier one" else
+      match i.gaps with
+      | [(pos, len)] =>
+        if len % g.fs == 0 then none else
+        -- largest clean pre-gap prefix
+        let pre := ((List.range (bs.length + 1)).filter fun k =>
+          cleanRun g frs (bs.take k) 0 && decide (totalFrames (bs.take k) * g.fs ≤ pos)).foldl max 0
+        let rest := bs.drop pre
+        let gmin := (pos + len + g.fs - 1) / g.fs
+        let starts := (List.range (frs.length + 1)).filter (· ≥ gmin)
+        if rest.isEmpty then none else
+        if starts.any (cleanRun g frs rest) then
+          (if (rest.headD default).dropped == 0 then some "C04:gap-not-reported data resumed after lost bytes without any block reporting a loss" else none)
+        else if starts.any (cleanRun g frs (rest.drop 1)) || (rest.drop 1).isEmpty then
+          some "C04:gap-garbage-block the block in which the loss sits was delivered with misaligned words (re-alignment only at the next read)"
+        else some "C04:gap-not-realigned after lost bytes the blocks are not whole frames in order"
+      | _ => none
+
+/-! #### distributeData cases -/
+
+inductive DStep where
+  | mix (req : List (Int × Nat))
+  | buf (nframes : Nat) (t : Int) (drop : Bool) (bytes : List Nat)
+
+inductive DRes where
+  | mix (ok : Bool)
+  | blk (b : Block)
+deriving DecidableEq
+
+structure DIn where
+  g : Geom
+  nsamp : Nat
+  first : Int
+  t0 : Int
+  steps : List DStep
+
+/-- the harness's demultiplexing of whole frames into readout-order slices -/
+def bufOf (g : Geom) (nframes : Nat) (t : Int) (drop : Bool) (bytes : List Nat) : Buf :=
+  { dc := demux g.nchan nframes (u16s bytes), t := t, drop := drop }
+
+def runD (i : DIn) : List DRes :=
+  let rec go (st : DState Float) : List DStep → List DRes
+    | [] => []
+    | .mix req :: rest =>
+      match configureMix i.g (scaleOfBits i.nsamp) st req with
+      | some st' => .mix true :: go st' rest
+      | none => .mix false :: go st rest
+    | .buf n t d bytes :: rest =>
+      match distribute floatOps 0.0 i.g st (bufOf i.g n t d bytes) with
+      | some (st', b) => .blk b :: go st' rest
+      | none => go st rest
+  go (DState.init i.g 0.0 i.first i.t0) i.steps
+
+/-- per buffer step: frames, scale table in force, time, drop flag -/
+def dBufs (i : DIn) : List (List Frame × List Float × Int × Bool) :=
+  let rec go (sc : List Float) : List DStep → List (List Frame × List Float × Int × Bool)
+    | [] => []
+    | .mix req :: rest =>
+      let st : DState Float := { next := 0, extLast := false, prevT := 0, lastFb := [], scale := sc }
+      match configureMix i.g (scaleOfBits i.nsamp) st req with
+      | some st' => go st'.scale rest
+      | none => go sc rest
+    | .buf n t d bytes :: rest => (chunks i.g.F n (wordsOf bytes), sc, t, d) :: go sc rest
+  go (List.replicate i.g.nchan 0.0) i.steps
+
+def chkD (i : DIn) (res : List DRes) : Option String :=
+  let g := i.g
+  if !geomOK g then none else
+  let bs := res.filterMap fun r => match r with | .blk b => some b | _ => none
+  let bufs := dBufs i
+  if bs.length != bufs.length then some "C04:block-count not one block per buffer" else
+  if !shapeOK g bs then some "C04:block-shape a block's slices do not have the announced length" else
+  let frsAll := bufs.flatMap (·.1)
+  if !((List.zip bs bufs).all fun (b, bu) => b.nframes == bu.1.length) then some "C04:block-shape wrong block length" else
+  if !(cleanRun g frsAll bs 0) then some "C04:word-placement an error channel is not the (row,column) word sequence of its channel number" else
+  if !((oddChans g).all fun ch =>
+        concatChan bs ch == mixSpec floatOps (bufs.flatMap fun bu => List.replicate bu.1.length (bu.2.1.getD ch 0.0))
+          (chanTrue g frsAll (ch - 1)) (chanTrue g frsAll ch) 0)
+  then some "C04:fb-retard-mix a feedback channel is not the delayed, flag-cleared feedback plus the scaled error of the same sample" else
+  -- loss report and numbering
+  let times := i.t0 :: bufs.map (·.2.2.1)
+  let est := (List.zip bufs times).map fun (bu, tprev) => if bu.2.2.2 then bu.2.2.1 - tprev else 0
+  if (bs.map (·.dropped)) != est then some "C04:drop-report droppedFrames is not the loss estimate (0 without a detected loss)" else
+  if est.all (· ≥ 0) && !(monotone bs) then some "C04:frames-backwards a later block starts before the end of an earlier one" else
+  if est.all (· == 0) && !(contiguous i.first bs) then some "C04:frame-numbering frame numbers not contiguous on a loss-free run" else
+  if frsAll.all (flagsUniform g) &&
+     (bs.flatMap (·.ext)) != edgeSpec false ((List.zip bs bufs).flatMap fun (b, bu) => flagItems g bu.1 b.first)
+  then some "C04:ext-trigger-row external trigger counts are not frame*rows+row of the rising edges" else
+  none
+
+/-! ### Driver -/
+
+def panicClass : Panic → String
+  | .divZero => "div-zero"
+  | .firstWordZero => "other:not_sure_what_to_do_here,"
+  | .dropFromEnd => "other:expect_dropFromEnd>0"
+  | .noFrames => "other:should_not_get_here"
+
+open P in
+def pBlock : P Block := do
+  let first ← int
+  let same ← nat
+  let dropped ← int
+  let nframes ← nat
+  let ext ← list int
+  let data ← list (do let b ← bytes; pure (u16s b))
+  -- `same = 0`: the segments of the block disagree on first frame / dropped frames
+  pure { first := if same == 1 then first else first - 1000000007, dropped, nframes, ext, data }
+
+open P in
+def pMix : P (List (Int × Nat)) := list (do let i ← int; let b ← nat; pure (i, b))
+
+open P in
+def pR : P (RIn × ROut) := do
+  let nc ← nat; let nr ← nat; let nsamp ← nat; let first ← int; let t0 ← int
+  kw "mix"; let mix ← pMix
+  kw "orig"; let orig ← bytes
+  kw "gaps"; let gaps ← list (do let p ← nat; let l ← nat; pure (p, l))
+  kw "ticks"; let ticks ← list (do let c ← nat; let t ← int; pure (c, t))
+  kw "OUT"
+  let t ← tok
+  let out ← match t with
+    | "PANIC" => do let c ← tok; pure (ROut.panic c)
+    | "HANG" => pure ROut.hang
+    | "mixres" => do
+      let ok ← nat
+      kw "blocks"
+      let bs ← list pBlock
+      pure (ROut.blocks (ok == 1) bs)
+    | _ => fail s!"bad output {t}"
+  pure ({ g := { nc, nr }, nsamp, first, t0, mix, orig, gaps, ticks }, out)
+
+open P in
+def pD : P (DIn × List DRes) := do
+  let nc ← nat; let nr ← nat; let nsamp ← nat; let first ← int; let t0 ← int
+  kw "steps"
+  let steps ← list (do
+    let t ← tok
+    match t with
+    | "M" => do let m ← pMix; pure (DStep.mix m)
+    | "B" => do
+      let n ← nat; let tm ← int; let d ← nat; let b ← bytes
+      pure (DStep.buf n tm (d == 1) b)
+    | _ => fail s!"bad step {t}")
+  kw "OUT"
+  let t ← tok
+  if t == "PANIC" || t == "HANG" then pure ({ g := { nc, nr }, nsamp, first, t0, steps }, []) else
+  if t != "res" then fail s!"bad output {t}" else
+  let res ← list (do
+    let t ← tok
+    match t with
+    | "M" => do let ok ← nat; pure (DRes.mix (ok == 1))
+    | "B" => do let b ← pBlock; pure (DRes.blk b)
+    | _ => fail s!"bad result {t}")
+  pure ({ g := { nc, nr }, nsamp, first, t0, steps }, res)
+
+def blockDiff (m i : List Block) : String :=
+  match firstDiff m i 0 with
+  | none => "-"
+  | some k =>
+    let a := m.getD k default
+    let b := i.getD k default
+    if k ≥ m.length || k ≥ i.length then s!"number of blocks: model {m.length} impl {i.length}"
+    else if a.first != b.first then s!"block {k} first frame: model {a.first} impl {b.first}"
+    else if a.dropped != b.dropped then s!"block {k} dropped: model {a.dropped} impl {b.dropped}"
+    else if a.nframes != b.nframes then s!"block {k} frames: model {a.nframes} impl {b.nframes}"
+    else if a.ext != b.ext then s!"block {k} ext counts: model {a.ext} impl {b.ext}"
+    else s!"block {k} data, channel {(firstDiff a.data b.data 0).getD 0}"
+
+def satHit (bs : List Block) : Bool :=
+  bs.any fun b => (List.zip (List.range b.data.length) b.data).any fun (ch, d) => ch % 2 == 1 && d.any (· == 65535)
+
+def runLine (ts : List String) : Verdict :=
+  match ts with
+  | "R" :: rest =>
+    match P.run pR rest with
+    | .error e => .bad e
+    | .ok (i, out) =>
+      let m := runR i
+      let agree := match m, out with
+        | .ok (mok, mb), .blocks iok ib => mok == iok && mb == ib
+        | _, _ => false
+      match chkR i out with
+      | some sig =>
+        -- the unrepaired finding is reproduced by the model: a disagreement there is still reported
+        if sig.startsWith "C04:gap-garbage-block" && !agree then
+          .diff "model and implementation differ on a run with a loss in the middle of a read"
+        else .viol sig
+      | none =>
+        let geomTags := [s!"nc{i.g.nc}", if i.g.nr ≤ 8 then "nr<=8" else "nr>8"]
+        match m, out with
+        | .error p, .panic cls =>
+          if panicClass p == cls then .ok (["reader", "panic", "malformed"] ++ geomTags) else .diff s!"panic class: model {panicClass p} impl {cls}"
+        | .error p, _ => .diff s!"model panics ({panicClass p}), implementation did not"
+        | .ok _, .panic cls => .diff s!"implementation panicked ({cls}), model does not"
+        | .ok _, .hang => .diff "implementation hung"
+        | .ok (mok, mb), .blocks iok ib =>
+          if mok != iok then .diff "mix request accepted/rejected differently" else
+          if mb != ib then .diff (blockDiff mb ib) else
+          let frs := framesOf i.g i.orig
+          let wf := geomOK i.g && i.orig.length % i.g.fs == 0 && frs.all (frameWF i.g)
+          .ok (["reader"] ++ geomTags ++
+            (if mb.isEmpty then ["noblocks"] else ["blocks"]) ++
+            (if wf then (if i.gaps.isEmpty then ["wellformed"] else ["gap"]) else ["malformed"]) ++
+            (if mb.any (·.dropped != 0) then ["lossreported"] else []) ++
+            (if mb.any (!·.ext.isEmpty) then ["ext"] else []) ++
+            (if !i.mix.isEmpty && mok then ["mix"] else []) ++
+            (if satHit mb then ["sat"] else []) ++
+            (if i.ticks.any (fun (c, _) => c < 3 * i.g.fs) then ["shortreads"] else []) ++
+            (if i.ticks.any (fun (c, _) => c % i.g.fs != 0) then ["unaligned"] else []))
+  | "D" :: rest =>
+    match P.run pD rest with
+    | .error e => .bad e
+    | .ok (i, res) =>
+      if res.isEmpty && !i.steps.isEmpty then .diff "implementation crashed or hung in distributeData" else
+      match chkD i res with
+      | some sig => .viol sig
+      | none =>
+        let m := runD i
+        if m.length != res.length then .diff s!"number of results: model {m.length} impl {res.length}" else
+        match (List.zip m res).find? (fun (a, b) => a != b) with
+        | some (.blk a, .blk b) => .diff (blockDiff [a] [b])
+        | some _ => .diff "mix request accepted/rejected differently"
+        | none =>
+          let bs := res.filterMap fun r => match r with | .blk b => some b | _ => none
+          .ok (["dist", s!"nc{i.g.nc}", if i.g.nr ≤ 8 then "nr<=8" else "nr>8"] ++
+            (if bs.isEmpty then [] else ["blocks"]) ++
+            (if bs.any (·.dropped != 0) then ["lossreported"] else []) ++
+            (if bs.any (!·.ext.isEmpty) then ["ext"] else []) ++
+            (if res.any (fun r => r == .mix true) then ["mix"] else []) ++
+            (if res.any (fun r => r == .mix false) then ["mixrejected"] else []) ++
+            (if satHit bs then ["sat"] else []))
+  | _ => .bad "C04: unknown case kind"
 
 end DastardV.C04
